@@ -192,6 +192,9 @@ func ext۰reflect۰Zero(fr *frame, args []value) value {
 }
 
 func reflectKind(t types.Type) reflect.Kind {
+	if t == nil {
+		return reflect.Invalid
+	}
 	switch t := t.(type) {
 	case *types.Named, *types.Alias:
 		return reflectKind(t.Underlying())
